@@ -28,6 +28,44 @@ func init() {
 }
 
 func runC18(w *World, r *Report) {
+	// ---- return-directly: the FIRST matching call of the message is the one returned
+	r.Rule("C18.return-directly-first", "getReturnDirectlyToolCallID returns the id of the first tool call that is in the return-directly set (return from inside the scan, no loop-carried 'last match')", 1)
+	{
+		f := w.Fn("flow/agent/react", "getReturnDirectlyToolCallID")
+		n, bad := 0, ""
+		instrs(f, func(in ssa.Instruction) {
+			ret, ok := in.(*ssa.Return)
+			if !ok {
+				return
+			}
+			v := returnedValue(ret, 0)
+			if s, isC := constString(v); isC && s == "" {
+				return
+			}
+			n++
+			if _, isPhi := v.(*ssa.Phi); isPhi {
+				bad = "the returned id is a loop-carried variable (the last match wins)"
+				return
+			}
+			// inside the loop: the return's block can reach itself only through the loop? it must lie in a cycle's body
+			inLoop := false
+			for _, li := range naturalLoops(f) {
+				for _, p := range ret.Block().Preds {
+					if li.body[p] {
+						inLoop = true
+					}
+				}
+			}
+			if !inLoop {
+				bad = "the match is not returned from inside the scan"
+			}
+		})
+		r.Check(n > 0 && bad == "", "C18.return-directly-first", "getReturnDirectlyToolCallID returns at the first match", f.Pos(), "return toolCall.ID inside the loop", "with two or more return-directly calls in one assistant message the agent returns another call's result than documented ('only the first one will be returned'): "+bad)
+	}
+	// ---- shared with C17: every streamed tool answer is delivered
+	r.Rule("C18.stream-answers-total", "the tools node's stream converter turns every chunk (an empty one included) into a frame carrying the call's ToolMessage", 1)
+	toolStreamConverterTotal(w, r, "C18.stream-answers-total")
+
 	newAgent := w.Fn("flow/agent/react", "NewAgent")
 	brd := w.Fn("flow/agent/react", "buildReturnDirectly")
 
